@@ -21,6 +21,7 @@ import (
 	"github.com/prometheus/alertmanager/cluster"
 	"github.com/prometheus/alertmanager/cluster/clusterpb"
 
+	"verifharness/appsys"
 	"verifharness/vh"
 )
 
@@ -679,6 +680,11 @@ func genWire(r *vh.Rand, thorough bool) *WireCase {
 func TestCheck(t *testing.T) {
 	env := vh.GetEnv()
 	run := vh.NewRun(env, "AM.Run.C19Run")
+	// app engine: the REAL application wiring (package app) in real time, in its own process; reports through run.
+	// true = the replay file held an app-engine case and has been handled.
+	if appsys.Part(t, env, run, "C19") {
+		return
+	}
 	var cases []Case
 	if env.Replay != "" {
 		var c Case
